@@ -201,6 +201,41 @@ pub fn exp_alphabet(quick: bool) -> Vec<[f64; 2]> {
             }
         }
     }
+    // every multiple of 1/4 from -1100 to 1100 (all reduction breakpoints y/2 +- 1/4, far beyond both
+    // overflow thresholds), low words of both signs
+    for k in -4400..=4400i64 {
+        let hi = k as f64 * 0.25;
+        if hi == 0.0 {
+            continue;
+        }
+        v.push([hi, 0.0]);
+        let e = crate::grid::exp_of(hi);
+        for s in [1.0, -1.0] {
+            let lo = s * 2f64.powi(e - 54) * 1.7;
+            if dd_valid_fast(hi, lo) {
+                v.push([hi, lo]);
+            }
+        }
+    }
+    // ties of the table-index rounding: z = (2k+1)/256 around a spread of half-integers
+    for m in (-1418..=1418i64).step_by(if quick { 59 } else { 7 }).chain(-6..=6) {
+        for k in -32..=31i64 {
+            let hi = m as f64 * 0.5 + (2 * k + 1) as f64 / 256.0;
+            v.push([hi, 0.0]);
+            if !quick || k % 4 == 0 {
+                let e = crate::grid::exp_of(hi);
+                for s in [1.0, -1.0] {
+                    let lo = s * 2f64.powi(e - 56) * 1.1;
+                    if dd_valid_fast(hi, lo) {
+                        v.push([hi, lo]);
+                    }
+                }
+            }
+        }
+    }
+    // the interior of the exp_m1 switch region and of one table period, linearly
+    v.extend(crate::fx::linear_ladder(-256, 256, 256.0, false));
+    v.extend(crate::fx::linear_ladder(1, 512, 128.0, true));
     // generic grid, large and tiny arguments
     let mut exps: Vec<i32> = crate::fx::dense_exps(-1074, 11, quick);
     exps.extend([20, 60, 300, 1000, 1023]);
